@@ -46,3 +46,9 @@ pub use self::builtin_fn::{
 
 pub const PARSE_RECURSION_DEPTH_MAX: usize = 50;
 pub const EVAL_RECURSION_DEPTH_MAX: usize = 25;
+
+
+/// Verification hook: the argument type of `EvalFunctionQuery`
+/// lives in a private module and is not otherwise nameable.
+#[cfg(hlorenzi_customasm_verif)]
+pub use self::eval::EvalFunctionQueryArgument;
